@@ -704,6 +704,33 @@ def corpus_history(r, fails, tags):
     return c
 
 
+def corpus_history2(r, fails, tags):
+    """a nested part that was never given as a hybrid object (the container is built from plain data, copied, rebuilt from a
+    dictionary) lives inside its container all the same: it must not move"""
+    c = Case(r, fails, tags, force={"k1": "N", "k1b": None, "k2": "N", "k3": "N"})
+    steps = [("op_new", dict(ci=2, bi=0, given={})),               # H1 = Top(plain data)
+             ("op_get", dict(target=("H1", "mid"))),               # H2 = H1.mid
+             ("op_move", dict(target=("H2", 1))),                  # refused
+             ("op_get", dict(target=("H2", "leaf"))),              # H3 = H1.mid.leaf
+             ("op_move", dict(target=("H3", 2))),                  # refused
+             ("op_copy", dict(target=("H1", 1))),                  # H4 = copy of H1
+             ("op_get", dict(target=("H4", "leaf"))),              # H5 = H4.leaf
+             ("op_move", dict(target=("H5", 0))),                  # refused
+             ("op_move", dict(target=("H4", 2))),                  # the copy itself moves
+             ("op_get", dict(target=("H4", "mid"))),
+             ("op_move", dict(target=("H6", 0)))]                  # its nested part still does not
+    for name, kw in steps:
+        before = len(c.ops)
+        c.last_target = None
+        try:
+            getattr(c, name)(**kw)
+        except KeyError:
+            break
+        if len(c.ops) > before and not c.check_mirror(c.ops[-1]):
+            break
+    return c
+
+
 def run_history(r, fails, tags, n_ops):
     c = Case(r, fails, tags)
     c.op_new(0)
@@ -725,7 +752,7 @@ def run_all(tier, seed, extra=None):
     n_hist = {"quick": 40, "thorough": 1200}[tier]
     cases, expects, ctxs = [], [], []
     for hi in range(n_hist):
-        c = corpus_history(r, fails, tags) if hi == 0 else run_history(r, fails, tags, r.choice([8, 14, 24]))
+        c = corpus_history(r, fails, tags) if hi == 0 else corpus_history2(r, fails, tags) if hi == 1 else run_history(r, fails, tags, r.choice([8, 14, 24]))
         if extra:
             extra(c, r)
         cases.append(c.ops)
